@@ -1,7 +1,7 @@
 use super::{ast::*, lex, parse, token, Column, Error, LineNumber, MaxValue};
 use std::collections::HashMap;
 
-#[derive(Debug)]
+#[derive(Debug, Clone)]
 pub struct Line {
     number: LineNumber,
     tokens: Vec<token::Token>,
